@@ -3,6 +3,7 @@ import PqlModel.Props.C01Syntactic
 import PqlModel.Props.C01LexRender
 import PqlModel.Props.C01Sem
 import PqlModel.Props.C06Operand
+import PqlModel.Props.C05ParseStatement
 #print axioms Pql.C01.C01_parens_write
 #print axioms Pql.C01.C01_parens_wrap
 #print axioms Pql.C01.C01_unparen_write
